@@ -135,6 +135,28 @@ def body(chk):
                 why = 'no path of %s reaches the fatal error' % label
             chk.paths_clean('fatal<%s>:%s:registry-holds-only-live-instances-and-exit-releases-each-once' % (scalar, label), bad, key='fatal:%s' % label.split('(')[0], family='ownership',
                             sample=dict(obligation=label, paths=len(paths), fatal_paths=nterm, why=why), replay=vg_replay(chk, script, why, scalar, leak=True))
+        # ---- 2c. every solution-dependent API function called BEFORE any masa_init: the fatal error is reached without touching a null or
+        #          uninitialised object (the discipline itself -- message, status -- is C16)
+        for fn, api, sig in c16.api_all(w, scalar):
+            if api in c16.NOT_SOLUTION_DEPENDENT:
+                continue
+            try:
+                paths = ex.explore(w.base, lambda ex, fn=fn, sig=sig: ex.call(fn, c16.harness_args(w, ex, sig, scalar)), 16)
+            except ExecError as e:
+                chk.infra.append('%s before masa_init: %s' % (api, e))
+                continue
+            bad = [pc_term(p['pc']) for p in paths if bad_events(p) or (p['error'] is not None and not isinstance(p['error'], UnwindBound))]
+            why = ''
+            for p in paths:
+                if bad_events(p) or p['error'] is not None:
+                    why = str(bad_events(p)[:1] or p['error'])[:200]
+            simple = not any(x in sig for x in ('std::vector', '(*)', 'void**', 'std::string*', 'int*'))
+            a = ','.join('"x"' if q.strip() == 'std::string' else ('1' if q.strip() == 'int' else '(Scalar)0.5') for q in c16.split_sig(sig))
+            pre = {'std::string*': 'std::string s_; %s<Scalar>(&s_);', 'int*': 'int i_=0; %s<Scalar>(&i_);'}.get(sig.strip())
+            script = ['%s<Scalar>(%s);' % (api, a)] if simple else ([pre % api] if pre else None)
+            chk.paths_clean('before-init<%s>:%s(%s):no-memory-event' % (scalar, api, sig), bad, key='before-init:%s' % api, family='before-init-events',
+                            sample=dict(obligation='%s before masa_init' % api, paths=len(paths), why=why),
+                            replay=vg_replay(chk, script, '%s before masa_init: %s' % (api, why), scalar) if script else None)
         # ---- 3. printid balanced; list/select clean
         for api, sig in (('masa_printid', ''), ('masa_list_mms', ''), ('masa_display_param', ''), ('masa_display_vec', ''), ('masa_test_poly', '')):
             try:
@@ -253,7 +275,10 @@ def body(chk):
     # ---- 7. C array interface through the real callee, lengths 0..n
     v = pde.RegView(chk, w, 'cp_normal', 'double')
     ex = w.ex
-    for n in range(0, nmax + 1):
+    import build
+    if 'masa_set_array' not in w.prog.functions:
+        chk.infra.append('C wrapper unit cmasa.cpp could not be lowered to IR: %s' % (build.SKIPPED_UNITS[:1],))
+    for n in (range(0, nmax + 1) if 'masa_set_array' in w.prog.functions else ()):
         def thunk(ex):
             nm = ex.st.new_region('callerbuf', 16, 'caller:name')
             nm.fresh = False
